@@ -16,7 +16,8 @@ import time as _time
 import weakref
 
 FILE_KINDS = ("download", "overwrite", "upload", "modify", "servermap", "modify-raise", "overwrite-raise", "version-read")
-DIR_KINDS = ("set_node", "set_uri", "add_file", "add_file_big", "delete", "delete-missing", "list")
+DIR_KINDS = ("set_node", "set_uri", "add_file", "add_file_big", "delete", "delete-missing", "list", "rename")
+MULTI_ENTRY = ("add_file", "add_file_big", "rename")   # operations that enter the node's queue more than once / late
 WRITERS = ("overwrite", "upload", "modify")
 
 
@@ -153,7 +154,7 @@ def run_case(ck, cfg, mode, chooser=None, sched_seed=0, stats=None):
         c = g.make_client(k=k, happy=1, n=n, mutable_format=fmt)
         M.tag_client(g, c, "C", monbox)
         initial = b"base"
-        existing = ["old-%d" % i for i in range(3)]
+        existing = ["old-%d" % i for i in range(4)]
         lit = _uri.LiteralFileURI(b"child").to_string()
         if target == "file":
             st, created = g.wait(c.create_mutable_file(MutableData(initial)))
@@ -166,13 +167,36 @@ def run_case(ck, cfg, mode, chooser=None, sched_seed=0, stats=None):
         cap = created.get_uri()
         si = created.get_storage_index()
         # ---- one node object per capability string
-        n1 = c.create_node_from_uri(cap)
-        n2 = c.create_node_from_uri(cap)
+        route = cfg.get("route")
+        if route:
+            # the same write-cap reached by two routes: as a child of a directory (stored there as rw+ro pair) and
+            # by its bare capability string
+            st, parent = g.wait(c.create_dirnode(initial_children={"kid": (created, {})}))
+            if st != "ok":
+                ck.observe("setup-create-failed")
+                return out
+            pcap = parent.get_uri()
+            del parent
+            pn = c.create_node_from_uri(pcap)
+            if route == "child-first":
+                st, n2 = g.wait(pn.get("kid"))
+                n1 = c.create_node_from_uri(cap)
+            else:
+                n1 = c.create_node_from_uri(cap)
+                st, n2 = g.wait(pn.get("kid"))
+            if st != "ok":
+                ck.observe("setup-create-failed")
+                return out
+            ck.hit("node-obtained-by-two-routes")
+        else:
+            n1 = c.create_node_from_uri(cap)
+            n2 = c.create_node_from_uri(cap)
         ck.mon("same-cap-same-live-node")
         if n1 is not n2:
             ck.violation("two-live-node-objects-for-one-mutable-cap",
-                         "two create_node_from_uri(%r...) calls on one client returned different live objects "
-                         "(each has its own serializer)" % (cap[:20],), dict(cfg=desc))
+                         "%s on one client returned different live objects for %r... (each has its own serializer)"
+                         % ("looking the cap up as a directory child and by its bare string" if route
+                            else "two create_node_from_uri calls", cap[:20]), dict(cfg=desc))
         if n1.get_uri() != cap:
             ck.violation("node-cache-returns-node-of-other-cap",
                          "create_node_from_uri(%r...) returned a node whose URI is %r..." % (cap[:24], n1.get_uri()[:24]),
@@ -303,6 +327,8 @@ def run_case(ck, cfg, mode, chooser=None, sched_seed=0, stats=None):
                     return node.delete(existing[op["j"] % len(existing)])
                 if kind == "delete-missing":
                     return node.delete("never-existed-%d" % op["j"])
+                if kind == "rename":
+                    return node.move_child_to(existing[op["j"] % len(existing)], node, "renamed-%d" % op["j"])
                 if kind == "list":
                     return node.list()
                 raise ValueError(kind)
@@ -395,7 +421,7 @@ def evaluate(ck, cfg, g, c, cap, mon, recorder, setup_records, ops, done_order, 
         ck.observe("%s-%s" % (op["kind"], oc))
 
     # ---- completion in request order (add_file joins the queue only after its upload)
-    ser = [op["j"] for op in ops if op["serialized"] and not op["kind"].startswith("add_file")]
+    ser = [op["j"] for op in ops if op["serialized"] and op["kind"] not in MULTI_ENTRY]
     comp = [j for j in done_order if j in ser]
     ck.mon("completion-in-request-order")
     if comp != sorted(comp):
@@ -409,7 +435,7 @@ def evaluate(ck, cfg, g, c, cap, mon, recorder, setup_records, ops, done_order, 
         for op in ops:
             if op["kind"] in ("modify", "modify-raise") and op["calls"]:
                 first = op["calls"][0]
-                need = [o["j"] for o in ops[:op["j"]] if o["serialized"] and not o["kind"].startswith("add_file")]
+                need = [o["j"] for o in ops[:op["j"]] if o["serialized"] and o["kind"] not in MULTI_ENTRY]
                 ck.mon("modifier-runs-after-previous-completion")
                 missing = [j for j in need if j not in first[2]]
                 if missing:
@@ -505,19 +531,34 @@ def evaluate(ck, cfg, g, c, cap, mon, recorder, setup_records, ops, done_order, 
                          "after all operations the file reads %r, sequential execution in request order gives %r"
                          % (data if st == "ok" else _f(data), content), wit)
     else:
-        names = set(existing)
-        optional = set()
+        names = set(existing)      # what a read at this position must show
+        optional = set()           # what it may show in addition (edits that join the queue late)
+        final = set(existing)      # what is there when everything completed
         for op, oc in zip(ops, outcomes):
             kind, res = op["kind"], op["box"][0]
             exp_ok, exp_val = True, None
             if kind in ("set_node", "set_uri"):
                 names.add(op["name"])
+                final.add(op["name"])
             elif kind.startswith("add_file"):
                 optional.add(op["name"])
+                final.add(op["name"])
             elif kind == "delete":
                 nm = existing[op["j"] % len(existing)]
                 if nm in names:
                     names.discard(nm)
+                    final.discard(nm)
+                else:
+                    exp_ok = False
+            elif kind == "rename":
+                # read, relink, unlink: the relink/unlink join the queue after everything requested in this burst
+                src, dst = existing[op["j"] % len(existing)], "renamed-%d" % op["j"]
+                if src in names:
+                    names.discard(src)
+                    optional.update((src, dst))
+                    final.discard(src)
+                    final.add(dst)
+                    ck.hit("rename-races-other-directory-edits" if len(ops) > 1 else "rename-alone")
                 else:
                     exp_ok = False
             elif kind == "delete-missing":
@@ -525,7 +566,8 @@ def evaluate(ck, cfg, g, c, cap, mon, recorder, setup_records, ops, done_order, 
             elif kind == "list":
                 exp_val = ("names", set(names), set(optional))
                 if damaged and oc == "ok" and not any(
-                        o["kind"] in ("set_node", "set_uri", "add_file", "add_file_big", "delete") for o in ops[:op["j"]]):
+                        o["kind"] in ("set_node", "set_uri", "add_file", "add_file_big", "delete", "rename")
+                        for o in ops[:op["j"]]):
                     ck.hit("download-needed-the-mode-write-fallback" if second_survey_seen(g, op)
                            else "damaged-read-without-second-survey")
             judge(ck, op, oc, res, exp_ok, exp_val, wit, failed_before)
@@ -539,7 +581,7 @@ def evaluate(ck, cfg, g, c, cap, mon, recorder, setup_records, ops, done_order, 
             ck.violation("final-contents-differ-from-serial-execution", "final listing failed: %s" % _f(listing), wit)
         else:
             got = set(listing.keys())
-            want = names | optional
+            want = final
             if got != want:
                 lost = sorted(want - got)
                 ck.violation("directory-update-lost" if lost else "final-contents-differ-from-serial-execution",
@@ -626,6 +668,16 @@ def dfs_configs():
         for ops in (("list", "set_node"), ("list", "delete", "list")):
             out.append(dict(target="dir", ops=ops, fmt=fmt, k=1, n=3, nservers=3, profile="free", ev_first=True,
                             how="held", damage=True, key="dfs/dir-damaged/%s/1/3/%s" % (fmt, "+".join(ops))))
+        for ops in (("rename", "set_uri"), ("rename", "delete"), ("rename", "set_uri", "list"), ("set_node", "rename", "delete")):
+            out.append(dict(target="dir", ops=ops, fmt=fmt, k=1, n=3, nservers=3, profile="free", ev_first=True,
+                            how="held", rename=True, key="dfs/dir-rename/%s/1/3/%s" % (fmt, "+".join(ops))))
+        for (target, ops, route) in (("file", ("overwrite", "download"), "child-first"),
+                                     ("file", ("modify", "modify"), "bare-first"),
+                                     ("file", ("overwrite", "modify", "download"), "child-first"),
+                                     ("dir", ("set_node", "set_node"), "child-first"),
+                                     ("dir", ("set_uri", "list"), "bare-first")):
+            out.append(dict(target=target, ops=ops, fmt=fmt, k=1, n=3, nservers=3, profile="free", ev_first=True,
+                            how="held", route=route, key="dfs/%s-routes/%s/1/3/%s/%s" % (target, fmt, "+".join(ops), route)))
     return out
 
 
@@ -640,6 +692,13 @@ def random_cfg(rng):
                profile=rng.choice(["free", "per-server-fifo", "fifo"]), ev_first=rng.random() < .5,
                how=("held" if "upload" in ops else rng.choice(["held", "held", "temp"])), keyidx=rng.randrange(4),
                identity_probe=rng.random() < .25)
+    if rng.random() < .3:
+        # the node is reached once as a directory child and once by its bare cap; operations alternate between the two
+        cfg["route"] = rng.choice(["child-first", "bare-first"])
+        cfg["how"] = "held"
+    if target == "dir" and "rename" not in ops and rng.random() < .35:
+        ops = ("rename",) + tuple(ops[1:]) if rng.random() < .6 else tuple(ops[:-1]) + ("rename",)
+        cfg["ops"] = ops
     if rng.random() < .35:
         # shares on the servers a read asks first are damaged: reads need the MODE_WRITE fallback
         cfg["k"] = k = rng.choice([1, 1, 2])
@@ -726,8 +785,9 @@ def _run(ck):
     cfgs = dfs_configs()
     if ck.tier == "quick":
         r = ck.rng("dfs-pick")
-        dmg = [c for c in cfgs if c.get("damage")]
-        picked = r.sample(dmg, 2) + r.sample([c for c in cfgs if not c.get("damage")], 4)
+        special = lambda c: c.get("damage") or c.get("route") or c.get("rename")
+        picked = (r.sample([c for c in cfgs if c.get("damage")], 2) + r.sample([c for c in cfgs if c.get("route")], 1)
+                  + r.sample([c for c in cfgs if c.get("rename")], 1) + r.sample([c for c in cfgs if not special(c)], 2))
         per_cfg_runs, share = 120, 0.5
     else:
         picked = [c for i, c in enumerate(cfgs) if ck.mine(i)]
@@ -778,7 +838,8 @@ def _run(ck):
                        "result-equals-serial-model", "final-state-equals-serial-model", "every-operation-completes",
                        "lookup-returns-requested-cap")
     ck.require_reach("op-failed", "op-succeeded", "operation-judged-after-failed-one", "concurrent-directory-additions",
-                     "case-with-server-faults", "download-needed-the-mode-write-fallback")
+                     "case-with-server-faults", "download-needed-the-mode-write-fallback",
+                     "node-obtained-by-two-routes", "rename-races-other-directory-edits")
     ck.assumptions.append("DFS and ev_first cases run client-local steps before message deliveries; the other random "
                           "cases interleave them freely")
     ck.assumptions.append("exhaustive=true refers only to the DFS configurations counted in dfs_configs_exhausted")
